@@ -13,6 +13,12 @@ from pyvaporation.utils import NRTLParameters, UNIQUACParameters
 KG = "kg/(m2*h*kPa)"
 
 
+def own_molar(w, mix):
+    """the mole-fraction statement of the mass fraction w (Composition.tla: ToMolarP), built without the library's converter"""
+    m1, m2 = float(mix.first_component.molecular_weight), float(mix.second_component.molecular_weight)
+    return pv.Composition(p=(w / m1) / (w / m1 + (1.0 - w) / m2), type="molar")
+
+
 # ----------------------------------------------------------------------------- relabelled mixture (C06)
 def swapped_mixture(m):
     n, u = m.nrtl_params, m.uniquac_params
@@ -61,6 +67,11 @@ def process_twin(rng, rel, kinds):
         sc.pop("want_prog", None)
     if rel == "swap":
         sc["P0"] = None
+    if rng.random() < 0.25 and "dt" not in sc:
+        # coarse steps on a feed that is dilute in one component: a step may take away half of what is left of that component
+        sc["x0"] = rng.choice([rng.uniform(0.02, 0.1), rng.uniform(0.9, 0.98)])
+        sc["removal"] = rng.uniform(0.02, 0.3)
+        sc["N"] = min(sc["N"], 3)
     perv = rp.prepare(rng, sc)
     if perv is None:
         return None
@@ -150,6 +161,12 @@ def function_twins(rng, rel):
         cb = pv.Composition(p=1.0 - a["xw"], type="weight")
         Pb = (a["P2"], a["P1"])
         cm_a, cm_b = ca.to_molar(mix), cb.to_molar(mb)
+        # the same two physical states, each stated in either basis (independently): the answers are still each other's mirror image
+        if rng.random() < 0.4:
+            ca = own_molar(ca.p, mix)
+        if rng.random() < 0.4:
+            cb = own_molar(cb.p, mb)
+        out["basis_ab"] = [ca.type, cb.type]
     else:
         mb, pb, Pb = mix, pa, (a["P1"], a["P2"])
         cb = ca.to_molar(mix)
@@ -208,6 +225,10 @@ def function_twins(rng, rel):
     comps_a = [pv.Composition(p=x, type="weight") for x in xs]
     if rel == "swap":
         comps_b = [pv.Composition(p=1.0 - x, type="weight") for x in xs]
+        if rng.random() < 0.4:
+            comps_a = [own_molar(c.p, mix) if rng.random() < 0.6 else c for c in comps_a]
+        if rng.random() < 0.4:
+            comps_b = [own_molar(c.p, mb) if rng.random() < 0.6 else c for c in comps_b]
     else:
         comps_b = [c.to_molar(mix) for c in comps_a]
         if rng.random() < 0.4:        # the basis is a property of each point, not of the curve
